@@ -454,7 +454,7 @@ func checkContig(c *Ctx, key, pos string, dec []codec.Atom, start int) {
 			wf, ok := widthForm(prev)
 			if ok {
 				exp := prev.OffForm.Add(wf)
-				if !exp.Equal(*a.OffForm) {
+				if !exp.Equal(*a.OffForm) && !provedEqual(a, exp) {
 					r.Fail("contig", key, pos, fmt.Sprintf("%s starts at offset %s but %s ended at %s+%s", a.Field, a.Off, prev.Field, prev.Off, widthStr(prev)))
 					return
 				}
@@ -570,4 +570,14 @@ func fixedConsumed(fn *ssa.Function) (int, bool) {
 		val, have = n, true
 	}
 	return val, have
+}
+
+// provedEqual: the atom's offset equals exp in the proof context of the
+// instruction that consumes it (needed when the offset is a loop's exit value).
+func provedEqual(a *codec.Atom, exp lin.Form) bool {
+	if a.FI == nil || a.At == nil || a.OffForm == nil {
+		return false
+	}
+	cx := a.FI.CtxBefore(a.At)
+	return cx.Prove(lin.GE(*a.OffForm, exp)) && cx.Prove(lin.LE(*a.OffForm, exp))
 }
